@@ -554,15 +554,83 @@ def check_batch_persist(ctx, facts):
             else:
                 ctx.violate("C09.1c", CF, "persist-flag-cleared-for-strict", clo.relfile, s.line,
                             "the persist-to-disk flag is cleared on a path that a StrictlyAtOnce read can take: the batch returns without its position being durable")
-    # target stores: on both arms of the saw_tail test, guarded by flag true
+    # the persist target: the variable (captured by the closure) whose value the caller tests before it calls the
+    # index setter - an enum with a `None` variant, an Option, ... ; its non-None stores are the recorded targets
+    sets0 = b.calls(index_setters(ctx, facts)[0])
+    tvars = {}
+    for T in all_tests(b):
+        if T.kind == "discr" and not T.place["p"] and [s_ for s_ in sets0 if any(b.edge_guards(e_, s_.bb) for e_ in T.variant_edges.values())]:
+            l_ = op_local(b.resolve_copy({"k": "copy", "place": {"l": T.place["l"], "p": []}}))
+            for cand in (T.place["l"], l_):
+                if cand is not None and b.local_name(cand) and clo.captured(b.local_name(cand)) is not None:
+                    tvars[b.local_name(cand)] = b.local_ty(cand)
     tstores = []
-    for site, st in clo.assigns():
-        rv = st["rv"]
-        if rv["k"] == "agg" and "PersistTarget" in rv.get("name", "") and rv.get("variant") != "None":
-            tstores.append((site, rv.get("variant")))
-    variants = {v for s, v in tstores}
-    if not {"Tail", "Sealed"} <= variants:
-        ctx.violate("C09.1c", CF, "persist-target-missing", clo.relfile, clo.line, "the commit closure records a persist target for %s only" % sorted(variants))
+    from .core.readflags import _value_defs
+    for nm in tvars:
+        cap = clo.captured(nm)
+        ck = place_key(cap)
+        for site, st in clo.assigns():
+            pl = st["place"]
+            pk = place_key(clo.canon_place(pl)) if pl["p"] else place_key(pl)
+            if pk != ck and not (ck[-1] == "*" and pk == ck[:-1]):
+                continue
+            rv = st["rv"]
+            vals = [(site, rv)]
+            if rv["k"] == "use" and op_local(rv["op"]) is not None:
+                vals = list(_value_defs(clo, op_local(rv["op"])))
+            for vsite, vrv in vals:
+                if vrv["k"] == "agg" and vrv.get("akind") == "adt" and vrv.get("variant") not in ("None",):
+                    tstores.append((site, vrv.get("variant")))
+    if not tvars:
+        # one step of indirection: the tested value is itself computed from the captured target
+        # (`let position = match target { Tail{..} => Some(..), .. }; persist(position)`)
+        for T in all_tests(b):
+            if T.kind == "discr" and not T.place["p"] and [s_ for s_ in sets0 if any(b.edge_guards(e_, s_.bb) for e_ in T.variant_edges.values())]:
+                for vsite, vrv in _value_defs(b, T.place["l"]):
+                    if not (vrv["k"] == "agg" and vrv.get("akind") == "adt" and vrv.get("variant") not in ("None",)):
+                        continue
+                    for T2 in all_tests(b):
+                        if T2.kind != "discr" or T2.place["p"] or not any(b.edge_guards(e_, vsite.bb) for e_ in T2.variant_edges.values()):
+                            continue
+                        l2 = op_local(b.resolve_copy({"k": "copy", "place": {"l": T2.place["l"], "p": []}}))
+                        for cand in (T2.place["l"], l2):
+                            if cand is not None and b.local_name(cand) and clo.captured(b.local_name(cand)) is not None:
+                                tvars[b.local_name(cand)] = b.local_ty(cand)
+        for nm in tvars:
+            cap = clo.captured(nm)
+            ck = place_key(cap)
+            for site, st in clo.assigns():
+                pl = st["place"]
+                pk = place_key(clo.canon_place(pl)) if pl["p"] else place_key(pl)
+                if pk != ck and not (ck[-1] == "*" and pk == ck[:-1]):
+                    continue
+                rv = st["rv"]
+                vals = [(site, rv)]
+                if rv["k"] == "use" and op_local(rv["op"]) is not None:
+                    vals = list(_value_defs(clo, op_local(rv["op"])))
+                for vsite, vrv in vals:
+                    if vrv["k"] == "agg" and vrv.get("akind") == "adt" and vrv.get("variant") not in ("None",):
+                        tstores.append((site, vrv.get("variant")))
+    if not tvars:
+        # the closure may hand the target back as its return value instead (`target = update_state(&mut info)`)
+        for T in all_tests(b):
+            if T.kind == "discr" and not T.place["p"] and [s_ for s_ in sets0 if any(b.edge_guards(e_, s_.bb) for e_ in T.variant_edges.values())]:
+                l_ = op_local(b.resolve_copy({"k": "copy", "place": {"l": T.place["l"], "p": []}}))
+                for cand in (T.place["l"], l_):
+                    if cand is None:
+                        continue
+                    vd = list(_value_defs(b, cand))
+                    if any(rv_["k"] == "call" and strip_generics(rv_["node"].get("callee") or "") == strip_generics(clo.name) for s_, rv_ in vd):
+                        tvars[b.local_name(cand) or "_%d" % cand] = b.local_ty(cand)
+        if tvars:
+            for vsite, vrv in _value_defs(clo, 0):
+                if vrv["k"] == "agg" and vrv.get("akind") == "adt" and vrv.get("variant") not in ("None",):
+                    tstores.append((vsite, vrv.get("variant")))
+    if not tvars:
+        ctx.anchor_missing("C09.1c", "the persist target (a variable captured by the commit closure that the caller tests before WalIndex::set)")
+        return
+    if not tstores:
+        ctx.violate("C09.1c", CF, "persist-target-missing", clo.relfile, clo.line, "the commit closure never records a persist target in %s" % sorted(tvars))
     for site, v in tstores:
         # bypass edges from the closure's checkpoint-true edge to this store: only flag false / the other arm of saw_tail
         ok_flag = False
@@ -570,9 +638,9 @@ def check_batch_persist(ctx, facts):
             if T.kind == "local" and op_local(T.operand) == fl and clo.edge_guards(T.true_edge, site.bb):
                 ok_flag = True
         if ok_flag:
-            ctx.ok("C09.1c", CF, "PersistTarget::%s recorded under the persist flag" % v, clo.relfile, site.line)
+            ctx.ok("C09.1c", CF, "persist target (%s) recorded under the persist flag" % v, clo.relfile, site.line)
         else:
-            ctx.violate("C09.1c", CF, "persist-target-not-under-flag", clo.relfile, site.line, "PersistTarget::%s is recorded without consulting the persist flag" % v)
+            ctx.violate("C09.1c", CF, "persist-target-not-under-flag", clo.relfile, site.line, "a persist target (%s) is recorded without consulting the persist flag" % v)
     # each cursor store arm has its target store: for each store of cur_block_offset/tail_offset there is a target store dominated by it or in the same arm
     # (the two arms are the successors of the saw_tail test)
     cp = checkpoint_edges(clo)
@@ -585,6 +653,8 @@ def check_batch_persist(ctx, facts):
             T, which = classify_edge(clo, e)
             if T is not None and T.kind == "local" and op_local(T.operand) == fl and which == "false":
                 continue
+            if clo.term(e[1])["k"] == "unreachable":
+                continue   # the impossible arm of an exhaustive match
             bad.append(e)
         if bad:
             ctx.violate("C09.1c", CF, "persist-target-skipped", clo.relfile, clo.term(bad[0][0])["line"], "a consuming batch commit can leave the persist target unset although the persist flag is set")
@@ -593,32 +663,57 @@ def check_batch_persist(ctx, facts):
     # caller: both arms reach WalIndex::set
     sets = b.calls(index_setters(ctx, facts)[0])
     check_setters_used(ctx, facts, b, F, sets)
+    tnames = set(tvars)
     for T in all_tests(b):
-        if T.kind == "discr" and not T.place["p"] and "PersistTarget" in b.local_ty(T.place["l"]):
-            adt_t = None
-            for v, e in T.variant_edges.items():
-                reach = b.reachable_from([e[1]])
-                tg = [s for s in sets if s.bb in reach and b.edge_guards(e, s.bb)]
-                # variant index -> name via the closure stores is unknown here; arms without a set must be the None arm
-                if tg:
-                    by = bypass_edges(b, e[1], [s.bb for s in tg])
-                    bad = []
-                    for be in by:
-                        T2, which = classify_edge(b, be)
-                        if T2 is not None and T2.kind == "discr":
-                            cs = call_site_of(b, {"k": "copy", "place": T2.place})
-                            if cs is not None and re.search(r"RwLock::(write|read)$", callee_name(cs.node)):
-                                continue
-                        if b.term(be[1])["k"] == "unreachable":
+        if T.kind != "discr" or T.place["p"]:
+            continue
+        l_ = op_local(b.resolve_copy({"k": "copy", "place": {"l": T.place["l"], "p": []}}))
+        if not ({b.local_name(T.place["l"]), b.local_name(l_) if l_ is not None else None} & tnames):
+            continue
+        ty = b.local_ty(T.place["l"])
+        edges_ = dict(T.variant_edges)
+        if T.otherwise is not None and b.term(T.otherwise)["k"] != "unreachable":
+            edges_["otherwise"] = (T.bb, T.otherwise)
+        n_arms = 0
+        for v, e in edges_.items():
+            reach = b.reachable_from([e[1]])
+            tg = [s for s in sets if s.bb in reach and b.edge_guards(e, s.bb)]
+            via = None
+            if not tg:
+                # the arm may hand its value on: an Option built as Some on this arm (and only tested afterwards)
+                for T3 in all_tests(b):
+                    if T3.kind != "discr" or T3.place["p"] or not b.local_ty(T3.place["l"]).startswith("std::option::Option") or T3.bb not in reach:
+                        continue
+                    here = [(vs, vr) for vs, vr in _value_defs(b, T3.place["l"]) if b.edge_guards(e, vs.bb)]
+                    if here and all(vr["k"] == "agg" and vr.get("variant") == "Some" for vs, vr in here):
+                        se = T3.variant_edges.get(1)
+                        cand = [s for s in sets if se and b.edge_guards(se, s.bb)]
+                        if cand:
+                            tg, via = cand, T3
+            if tg:
+                n_arms += 1
+                by = bypass_edges(b, e[1], [s.bb for s in tg])
+                bad = []
+                for be in by:
+                    T2, which = classify_edge(b, be)
+                    if via is not None and T2 is not None and T2.bb == via.bb and which != 1:
+                        continue   # the None edge of the Option this arm has just built as Some
+                    if T2 is not None and T2.kind == "discr":
+                        cs = call_site_of(b, {"k": "copy", "place": T2.place})
+                        if cs is not None and re.search(r"RwLock::(write|read)$", callee_name(cs.node)):
                             continue
-                        bad.append(be)
-                    if bad:
-                        ctx.violate("C09.1c", F, "persist-arm-skips-set", b.relfile, b.term(bad[0][0])["line"], "a recorded persist target does not reach WalIndex::set")
-                    else:
-                        ctx.ok("C09.1c", F, "persist target arm reaches WalIndex::set (bypass: poisoned lock only)", b.relfile, tg[0].line)
-            n_arms = sum(1 for v, e in T.variant_edges.items() if [s for s in sets if b.edge_guards(e, s.bb)])
-            if n_arms < 2:
-                ctx.violate("C09.1c", F, "persist-arm-missing", b.relfile, b.term(T.bb)["line"], "only %d arm(s) of the persist target match call WalIndex::set" % n_arms)
+                    if b.term(be[1])["k"] == "unreachable":
+                        continue
+                    bad.append(be)
+                if bad:
+                    ctx.violate("C09.1c", F, "persist-arm-skips-set", b.relfile, b.term(bad[0][0])["line"], "a recorded persist target does not reach WalIndex::set")
+                else:
+                    ctx.ok("C09.1c", F, "persist target arm reaches WalIndex::set (bypass: poisoned lock only)", b.relfile, tg[0].line)
+        # every arm but the `nothing to persist` one calls the setter
+        adt_t = facts.adts.get(strip_generics(ty)) or next((a for n_, a in facts.adts.items() if n_.endswith("::" + strip_generics(ty).split("::")[-1])), None)
+        n_var = 2 if ty.startswith("std::option::Option") else (len(adt_t["variants"]) if adt_t else len(edges_))
+        if n_arms < n_var - 1:
+            ctx.violate("C09.1c", F, "persist-arm-missing", b.relfile, b.term(T.bb)["line"], "only %d of the %d arms of the persist target test call WalIndex::set" % (n_arms, n_var))
 
 
 def check_index(ctx, facts):
